@@ -339,7 +339,7 @@ def checks(tier):
     for layer, initial in (("serial", ["A"]), ("shared-neuron", ["A", "B"]), ("shared-neuron", ["A"])):
         prefixes = [[], ["step"], ["step", "step"]] + ([["step", "del A"], ["t.eval", "step"]] if "B" in initial or th else [])
         for pf in prefixes:
-            free = (5 - len(pf)) if th else ((3 if layer == "serial" else 2) if pf else 3)
+            free = min(4, 5 - len(pf)) if th else ((3 if layer == "serial" else 2) if pf else 3)      # (5 free operations: measured 50 min per configuration)
             single.append(dict(layer=layer, initial=initial, prefix=pf, free=free))
         # user-added monitors (add_monitor / del_monitor) interleaved with everything else
         for pf in ([], ["add M"], ["add M", "step"], ["step", "add M"]):
@@ -360,7 +360,7 @@ BOUNDS = {
                           "trainer clear, del/register cell A/B, trainer step}; two-trainer programs of 4 operations over {step, t2 register/del/eval/train/clear, drop t2}",
               "layers": "Serial (1 cell), a Biclique whose two cells share the post-synaptic group, and one trainer over two separate Serial layers of identical structure (programs of 3 operations)", "trainers": "STDP (one or two, same or different hyper-parameters), MSTDPET",
               "observations": "fresh symbolic spikes each step; monitor contents compared with the closed-form trace over exactly the armed steps"},
-    "thorough": {"programs": "5 operations"},
+    "thorough": {"programs": "4 free operations after every prefix (3 after the user-monitor and arm/disarm prefixes); two-trainer programs of 5 operations"},
 }
 OUTSIDE = ["user-defined monitors other than one cumulative-trace monitor on cell A", "homeostasis and kernel trainers (same CellTrainer machinery)", "program quantifier = exhaustive enumeration up to the bound",
            "garbage-collection timing is executed under CPython"]
